@@ -1277,6 +1277,56 @@ class Planner:
                             if g is not None:
                                 self.call("sim.ops.form_data", self.ref(g), kind="formdata", keep_failed=True, **self.cfd_options())
             return None
+        if k == 9 and r.random() < 0.35 and len(M["spaces"]) >= 2 and M.get("v") is not None:
+            # a form whose test functions clash (same number, different spaces): every
+            # analysis of it (arguments(), signature(), hash) raises part-way
+            V2 = [sp for sp in M["spaces"] if sp != M["V"]]
+            v2 = self.call("ufl.TestFunction", self.ref(r.choice(V2)), kind="arg")
+            kind, m = self.measure(M, kinds=("dx",))
+            if v2 is not None and m is not None:
+                def sc(x):
+                    sh = self.shape(x)
+                    return self.call("operator.getitem", self.ref(x), ["t"] + [0] * len(sh)) if sh else x
+
+                a, b = sc(M["v"]), sc(v2)
+                lit = self.lit()
+                if a is not None and b is not None:
+                    e = self.call("operator.add", self.ref(a), self.ref(b))
+                    if e is not None and lit is not None and self.shape(lit) == ():
+                        e = self.call("operator.mul", self.ref(lit), self.ref(e)) or e
+                    bf = self.call("operator.mul", self.ref(e), self.ref(m), kind="form") if e is not None else None
+                    if bf is not None:
+                        g = self.call("operator.add", self.ref(f), self.ref(bf), kind="form", keep_failed=True) if rank == 1 else bf
+                        for what in r.sample(["sig", "hash", "args", "coeffs", "str"], 2):
+                            self.emit(["obs", None, what, g if g is not None else bf], keep_failed=True)
+            return None
+        if k == 9 and r.random() < 0.3:
+            # a twin of the form whose measure data is numerically equal but of another type
+            # (degree 2 / 2.0, subdomain id 1 / True), then a comparison between the two
+            e = self.scalar(M, 2)
+            if e is not None:
+                tw = []
+                va, vb = r.choice([(2, 2.0), (1, True), (3, 3.0)])
+                usesid = r.random() < 0.4
+                for v_ in (va, vb):
+                    kw = {"domain": self.ref(M["slot"])}
+                    if usesid:
+                        kw["subdomain_id"] = v_
+                    else:
+                        md = self.new()
+                        if not self.emit(["lit", md, {"quadrature_degree": v_}], kind="dict"):
+                            break
+                        kw["metadata"] = self.ref(md)
+                    m = self.call("ufl.Measure", "dx", kind="measure", **kw)
+                    g = self.call("operator.mul", self.ref(e), self.ref(m), kind="form") if m is not None else None
+                    if g is not None:
+                        tw.append(g)
+                if len(tw) == 2:
+                    for g in tw:
+                        self.forms.append((g, 0, self.meshes.index(M)))
+                    self.emit(["cmp", None, tw[0], tw[1]])
+                    self.emit(["cmp", None, tw[1], tw[0]])
+            return None
         if k == 8:
             fd = self.call("sim.ops.form_data", self.ref(f), kind="formdata", keep_failed=kf, **self.cfd_options())
             if fd is not None:
@@ -1360,10 +1410,10 @@ class Planner:
                 break
             kf = r.random() < abort_p
             start = len(self.ops)
-            if self.baseforms and r.random() < 0.3:
+            if self.baseforms and r.random() < 0.45:
                 S = r.choice(self.baseforms)
                 other = r.choice(self.baseforms)
-                w = r.choice(["add", "sub", "radd", "neg", "scale", "scale", "addself", "hash", "eq"] + (["action_arg", "action_coarg", "action_fn", "adjoint", "action_u"] if self.bf_env else []))
+                w = r.choice(["add", "sub", "radd", "neg", "scale", "scale", "addself", "hash", "eq", "alg", "alg"] + (["action_arg", "action_coarg", "action_fn", "adjoint", "action_u"] if self.bf_env else []))
                 if w == "add":
                     out = self.call("operator.add", self.ref(S), self.ref(other), keep_failed=kf, kind="baseform")
                 elif w == "sub":
@@ -1374,6 +1424,38 @@ class Planner:
                     out = self.call("operator.neg", self.ref(S), keep_failed=kf, kind="baseform")
                 elif w == "scale":
                     out = self.call("operator.mul", r.choice([2, 0.5, -1, 1, 1.0]), self.ref(S), keep_failed=kf, kind="baseform")
+                elif w == "alg":
+                    # public algorithms that accept base forms; components may vanish
+                    co = self.meshes[0]["coefs"]
+                    q = r.randrange(6)
+                    if q == 0 and co:
+                        d = self.call("ufl.derivative", self.ref(S), self.ref(r.choice(co)), keep_failed=kf, kind="baseform")
+                        out = d
+                        if d is not None and r.random() < 0.7:
+                            out = self.call(r.choice(["ufl.algorithms.expand_derivatives", "ufl.algorithms.apply_derivatives.apply_derivatives"]), self.ref(d), keep_failed=kf, kind="baseform") or d
+                    elif q == 1:
+                        out = self.call(r.choice(["ufl.algorithms.expand_derivatives", "ufl.algorithms.apply_algebra_lowering.apply_algebra_lowering", "ufl.algorithms.remove_complex_nodes.remove_complex_nodes"]), self.ref(S), keep_failed=kf, kind="baseform")
+                    elif q == 2 and co:
+                        u_ = r.choice(co)
+                        w_ = self.call("ufl.Coefficient", self.ref(self._space_of(u_)), kind="coef")
+                        mp = self.new()
+                        out = None
+                        if w_ is not None and self.emit(["lit", mp, ["d", [[self.ref(u_), self.ref(w_)]]]], kind="mapping"):
+                            out = self.call("ufl.replace", self.ref(S), self.ref(mp), keep_failed=kf, kind="baseform")
+                    elif q == 3:
+                        # replace a cofunction component by a zero base form: the component vanishes
+                        cof = [b for b in self.baseforms if type(self.obj(b)).__name__ == "Cofunction"]
+                        out = None
+                        if cof and self.meshes[0].get("v") is not None:
+                            z = self.call("ufl.ZeroBaseForm", ["t", self.ref(self.meshes[0]["v"])], kind="baseform")
+                            mp = self.new()
+                            if z is not None and self.emit(["lit", mp, ["d", [[self.ref(r.choice(cof)), self.ref(z)]]]], kind="mapping"):
+                                out = self.call("ufl.replace", self.ref(S), self.ref(mp), keep_failed=kf, kind="baseform")
+                    elif q == 4:
+                        out = self.call("ufl.algorithms.map_integrands.map_integrands", ["fn", r.choice(["ufl.algorithms.renumbering.renumber_indices", "sim.ops.identity", "sim.ops.zero_like"])], self.ref(S), keep_failed=kf, kind="baseform")
+                    else:
+                        self.emit(["obs", None, r.choice(["args", "coeffs", "repr", "str"]), S])
+                        out = None
                 elif w == "action_arg" and self.bf_env["arg"] is not None:
                     out = self.call("ufl.Action", self.ref(S), self.ref(self.bf_env["arg"]), keep_failed=kf, kind="baseform")
                 elif w == "action_coarg" and self.bf_env["coarg"] is not None:
